@@ -2007,6 +2007,7 @@ def lower(src, flags, cfg, roots, workdir):
     lw = Lowering(tu, cfg)
     # a root may be a callable that picks a function out of the TU (e.g. a method of an anonymous class)
     roots = [r(tu, lw) if callable(r) else r for r in roots]
+    roots = [r for r in roots if r is not None]      # an optional root that does not exist
     lw.run(roots)
     lw.check_loop_contracts_used()
     return lw
